@@ -1,4 +1,5 @@
 """C11 enforce blocks, audit forwards and records; every denial recorded once."""
+import time
 import e2e
 import pipe
 import pipegen
@@ -103,6 +104,23 @@ def run(chk):
                 for i, case in enumerate(cases):
                     runner.run_case(case, clear=(i == 0))
                 seq_failed[s] = stack.ctl("failed")
+
+        # a large burst of identical denials reported to the status actor all at once (more than its channel holds), while the
+        # actor is a slow consumer of summaries (H3 inject point): every one must be counted
+        stack.ctl("clear")
+        nbig = 400 if chk.tier == "quick" else 3000
+        stack.ctl("shook 300")
+        try:
+            r = stack.ctl("sumburst %d" % nbig)
+        finally:
+            stack.ctl("khook off")
+        chk.count("large_burst_denials", nbig)
+        chk.case(nontrivial_key=("large-burst", nbig))
+        gotf, gotc = [int(x) for x in r.split(" ")]
+        if gotf != nbig or gotc != nbig:
+            chk.violation("a burst of concurrent denials was not counted exactly once each", {"denials_reported_concurrently": nbig, "status_actor": "slowed by 300 us per summary"},
+                          expected={"failed_summary": nbig, "connection_summary": nbig}, observed={"failed_summary": gotf, "connection_summary": gotc})
+        stack.ctl("clear")
 
         # model first (fills o["model"]); then decide `denied` from the model's failed flag
         def pre_oracle(chk_, o, m):
